@@ -280,3 +280,15 @@ package encoder
 //@   requires matrix != nil && 0 <= int(ecLevel) && int(ecLevel) <= 3
 //@   assert call(SetBool,0): 0 <= i && i < 15 && arg3 == gozxing.bit(typeInfoBits, 14 - i) && arg1 == (i <= 7 ? 8 : (i == 8 ? 7 : 14 - i)) && arg2 == (i <= 5 ? i : (i <= 7 ? i + 1 : 8))
 //@   assert call(SetBool,2): 0 <= i && i < 15 && arg3 == gozxing.bit(typeInfoBits, 14 - i) && (i < 8 ? (arg1 == matrix.width - 1 - i && arg2 == 8) : (arg1 == 8 && arg2 == matrix.height - 15 + i))
+
+// ---------------------------------------------------------------- placement of the version information (8.10, figure 26), C07
+// bit b = 3*i + j of the 18-bit version word (b = 0 least significant, i.e. stream position 17-b) goes to column i, row height-11+j
+// (bottom-left block) and to its transpose (top-right block)
+//@ func maybeEmbedVersionInfo(version *decoder.Version, matrix *ByteMatrix) (e gozxing.WriterException)
+//@   property C07
+//@   opt check=asserts,inv
+//@   requires matrix != nil && version != nil && 1 <= version.versionNumber && version.versionNumber <= 40
+//@   loop 0: invariant 0 <= i && i <= 6 && bitIndex == 17 - 3 * i
+//@   loop 1: invariant 0 <= i && i < 6 && 0 <= j && j <= 3 && bitIndex == 17 - 3 * i - j
+//@   assert call(SetBool,0): 0 <= i && i < 6 && 0 <= j && j < 3 && arg3 == gozxing.bit(versionInfoBits, 17 - (3 * i + j)) && arg1 == i && arg2 == matrix.height - 11 + j
+//@   assert call(SetBool,1): 0 <= i && i < 6 && 0 <= j && j < 3 && arg3 == gozxing.bit(versionInfoBits, 17 - (3 * i + j)) && arg1 == matrix.height - 11 + j && arg2 == i
